@@ -377,6 +377,8 @@ class _CmpWorld:
         ex.me = me
         me.fields[('%struct.IB', (self.fields.index('__name__'),))] = self.mkstr(ex, 'self.__name__', self.n1)
         me.fields[('%struct.IB', (self.fields.index('__module__'),))] = self.mkstr(ex, 'self.__module__', self.m1)
+        for o in (self.NONE, self.TRUE, self.FALSE, self.NOTIMPL):
+            o.frame = 0               # immortal singletons (3.12: Py_RETURN_TRUE does not count): not part of the reference balance
         kind = ex.decide('other operand', ['self', 'None', 'another interface', 'foreign object'])
         ex.other_kind = kind
         if kind == 'self':
